@@ -82,6 +82,25 @@ class SeqSource(_Source):
         return _elem(self.seq, st, i)
 
 
+class SliceSource(_Source):
+    """a slice a[lo:hi] (bounds already normalised by the executor: 0 <= lo <= hi <= len(a)) iterated through
+    the indices lo .. hi of the underlying sequence"""
+
+    def __init__(self, base, lo, hi, elem_kind):
+        self.seq = VSeq(base, elem_kind)
+        self.lo, self.hi = VInt(lo), VInt(hi)
+
+    def elem_at(self, ex, st, i):
+        return _elem(self.seq, st, i)
+
+
+def seq_source(v):
+    t = v.t
+    if z3.is_app(t) and t.decl().name() == 's_slice':
+        return SliceSource(t.arg(0), t.arg(1), t.arg(2), v.elem)
+    return SeqSource(v)
+
+
 class EnumSource(_Source):
     """enumerate(seq) not yet turned into an iterator object (legacy EnumObj)"""
 
@@ -250,7 +269,7 @@ def comp_symbolic(ex, node, g, itv, st, fr):
     elements).  Returns a VSeq (list of ints; booleans as 0/1) or None."""
     if g.ifs:
         return None
-    src = SeqSource(itv) if isinstance(itv, VSeq) else (provider(ex, itv, st) or ex.loop_source(itv, st))
+    src = seq_source(itv) if isinstance(itv, VSeq) else (provider(ex, itv, st) or ex.loop_source(itv, st))
     if src is None:
         return None
     i = z3.Int(fresh_name('ci'))
@@ -285,10 +304,24 @@ def comp_symbolic(ex, node, g, itv, st, fr):
     body = z3.And(facts + [sat(r, j) == et])
     body = z3.substitute(body, (i, src.lo.t + j))
     st.assume(slen(r) == z3.simplify(n))
-    st.assume(z3.ForAll([j], z3.Implies(z3.And(0 <= j, j < slen(r)), body), patterns=[sat(r, j)]))
+    pats = [sat(r, j)]
+    if isinstance(src, (SeqSource, SliceSource)) and z3.is_int_value(z3.simplify(src.lo.t)) \
+            and z3.simplify(src.lo.t).as_long() == 0:
+        try:                                                   # also instantiate from accesses to the source element j
+            z3.ForAll([j], sat(src.seq.t, j) == 0, patterns=[sat(src.seq.t, j)])
+            pats.append(sat(src.seq.t, j))
+        except z3.Z3Exception:
+            pass
+    st.assume(z3.ForAll([j], z3.Implies(z3.And(0 <= j, j < slen(r)), body), patterns=pats))
     # isb(r) <=> every element is a byte (definition of isb; one direction is an axiom, the other by witness)
     w = z3.Int(fresh_name('cw'))
     st.assume(z3.Or(isb(r), z3.And(0 <= w, w < slen(r), z3.Not(z3.And(0 <= sat(r, w), sat(r, w) <= 255)))))
+    # element-wise xor of two whole sequences of equal length is the sequence term s_xor(A, B)
+    # (same elements, same length: equal in the intended model of extensional sequences)
+    if z3.is_app(et) and et.decl().name() == 'bxor' and isinstance(src, ZipSource) and len(src.subs) == 2:
+        a_, b_ = src.subs[0].seq, src.subs[1].seq
+        if et.arg(0).eq(sat(a_.t, i)) and et.arg(1).eq(sat(b_.t, i)):
+            st.assume(z3.Implies(slen(a_.t) == slen(b_.t), r == smt.s_xor(a_.t, b_.t)))
     src.done(ex, st)
     return VSeq(r, 'int', 'list')
 
